@@ -9,6 +9,7 @@ import Dnp3.Driver.Master
 import Dnp3.Driver.Pair
 import Dnp3.Driver.Attr
 import Dnp3.Driver.File70
+import Dnp3.Driver.FfiMeas
 open Dnp3 Dnp3.Driver
 
 partial def loop {σ : Type} (h : IO.FS.Stream) (out : IO.FS.Stream) (step : σ → String → σ × List String) (s : σ) : IO Unit := do
@@ -34,6 +35,7 @@ def main (args : List String) : IO UInt32 := do
   | ["master"] => loop stdin stdout masterStep {}; return 0
   | ["parse"] => loop stdin stdout parseStep (); return 0
   | ["ffi"] => loop stdin stdout ffiStep (); return 0
+  | ["ffimeas"] => loop stdin stdout ffimeasStep (); return 0
   | ["pair"] => loop stdin stdout pairStep {}; return 0
   | ["db"] => loop stdin stdout Dnp3.Driver.DbEngine.dbStep ({} : Dnp3.Driver.DbEngine.DbState); return 0
   | ["attr"] => loop stdin stdout Dnp3.Driver.AttrEngine.attrStep ({} : Dnp3.Driver.AttrEngine.AState); return 0
